@@ -153,12 +153,67 @@ def live_variables():
     return out
 
 
+def fresh_clash():
+    """user names of the form the compiler generates (a<k>, x<k>, share_<f>_<k>) in scopes inside which the compiler
+    has to invent fresh names (clause continuations, operands in argument position, shared continuations)"""
+    out = []
+    for nm in ("a0", "a1", "a2", "x0", "x1", "x2", "a", "x"):
+        out.append({'name': f"fresh/label-cocase/{nm}", 'src': prog(
+            f"label {nm} {{ let f: Fun[i64, i64] = new {{ apply(y) => if y == a {{ goto {nm} (b) }} else {{ y }} }}; (f.apply[i64, i64](5)) + 1 }}")})
+        out.append({'name': f"fresh/label-operand/{nm}", 'src': prog(
+            f"label {nm} {{ sub2(id(a), (if a == b {{ goto {nm} (7) }} else {{ id(b) }})) * 2 }}")})
+        out.append({'name': f"fresh/var-cocase/{nm}", 'src': prog(
+            f"let {nm}: i64 = a + 1; let f: Fun[i64, i64] = new {{ apply(y) => y - {nm} }}; (f.apply[i64, i64](b)) - sub2(id({nm}), id(b))")})
+        out.append({'name': f"fresh/var-case/{nm}", 'src': prog(
+            f"let {nm}: i64 = a - 1; (Cons(id(b), Nil).case[i64] {{ Nil => {nm}, Cons(h, t) => sub2(id(h), id({nm})) }}) + {nm}")})
+        out.append({'name': f"fresh/cns-param/{nm}", 'src': prog(
+            f"label k {{ g(a, b, k) + 1 }}",
+            extra_defs=f"def g(p: i64, q: i64, {nm}: cns i64): i64 {{ let f: Fun[i64, i64] = new {{ apply(y) => if y == q {{ goto {nm} (y) }} else {{ y + p }} }}; f.apply[i64, i64](p) }}\n")})
+    for k in range(0, 3):
+        body = "let r: i64 = (if a == 0 { 1 } else { 2 }); let s: i64 = (if b == 0 { r } else { r + 1 }); let t: i64 = (if a == b { s } else { s + r }); " + f"share_main_{k}(t, r)"
+        out.append({'name': f"fresh/share-def/{k}", 'src': prog(body, extra_defs=f"def share_main_{k}(p: i64, q: i64): i64 {{ p * q }}\n")})
+    return out
+
+
+def lift_order():
+    """statements that are lifted / shared with several free variables whose binding order differs from their
+    alphabetical order (and which have equal types, so that a swap stays well-typed)"""
+    out = []
+    defs = ("def mkE(p: i64, q: i64): Enum3 { if p == q { E1 } else { if p < q { E2 } else { E3 } } }\n"
+            "def mkL(p: i64, q: i64): List[i64] { if p == q { Nil } else { Cons(p, Nil) } }\n"
+            "def mkF(p: i64, q: i64): Fun[i64, i64] { new { apply(y) => (y + p) - q } }\n"
+            "def mkO(p: i64, q: i64): Obj3 { new { m1(y) => y + p, m2 => q, m3(y, z) => y - z } }\n"
+            "def mkS(p: i64, q: i64): Stream[i64] { new { head => p, tail => nats(q) } }\n")
+    uses = {
+        'Enum3': ("mkE(a, b)", "s.case { E1 => 1, E2 => 2, E3 => 3 }"),
+        'List[i64]': ("mkL(a, b)", "s.case[i64] { Nil => 0, Cons(h, t) => h }"),
+        'Fun[i64, i64]': ("mkF(a, b)", "s.apply[i64, i64](1)"),
+        'Obj3': ("mkO(a, b)", "(s.m1(1)) + (s.m2)"),
+        'Stream[i64]': ("mkS(a, b)", "s.tail[i64].head[i64]"),
+    }
+    orders = [("z", "y"), ("q", "p"), ("y", "z"), ("v2", "v10")]
+    for ty, (mk, use) in uses.items():
+        for (n1, n2) in orders:
+            body = (f"let {n1}: i64 = a - b; let {n2}: i64 = a + b; let s: {ty} = {mk}; "
+                    f"println_i64({n2}); println_i64({n1}); let r: i64 = {use}; (r + {n1}) - (2 * {n2})")
+            out.append({'name': f"lift/{ty.split('[')[0]}/{n1}-{n2}", 'src': prog(body, extra_defs=defs)})
+            body2 = (f"let {n1}: i64 = a - b; let {n2}: i64 = a + b; let r: i64 = (let s: {ty} = {mk}; {use}); "
+                     f"println_i64({n2}); println_i64({n1}); (r + {n1}) - (2 * {n2})")
+            out.append({'name': f"lift-inner/{ty.split('[')[0]}/{n1}-{n2}", 'src': prog(body2, extra_defs=defs)})
+    # shared continuations of conditionals with several free variables in non-alphabetical binding order
+    for (n1, n2) in orders:
+        body = (f"let {n1}: i64 = a - b; let {n2}: i64 = a + b; let c: i64 = (if a == b {{ {n1} }} else {{ {n2} }}); "
+                f"println_i64({n2}); println_i64({n1}); (c + {n1}) - (2 * {n2})")
+        out.append({'name': f"share-order/{n1}-{n2}", 'src': prog(body)})
+    return out
+
+
 def all_programs(tier='quick'):
     ps = name_reuse(("v", "x0") if tier == 'quick' else ("v", "x0", "a0", "x")) + generated_names() + effects_in_arguments() + cut_shapes() + live_variables()
-    return ps
+    return ps + fresh_clash() + lift_order()
 
 
 def effect_sequenced(tier='quick'):
     """programs inside the fragment where Fun's evaluation order is unambiguous (C01, C02): no effects in call /
     constructor / destructor / operator arguments and no effects under codata-typed bindings"""
-    return name_reuse(("v", "x0") if tier == 'quick' else ("v", "x0", "a0", "x")) + generated_names() + cut_shapes() + live_variables()
+    return name_reuse(("v", "x0") if tier == 'quick' else ("v", "x0", "a0", "x")) + generated_names() + cut_shapes() + live_variables() + fresh_clash() + lift_order()
